@@ -889,7 +889,11 @@ class Prover:
                         pass
                     return dict(status="fail", clause=f"raises_{exc_cls.__name__}", detail=f"{type(ex).__name__}: {ex} raised where the contract does not allow it")
             return dict(status="fail", clause="no_exception", detail=f"{type(ex).__name__}: {ex}")
-        vals = dict(call_args if isinstance(call_args, dict) else args, result=res, old=NS(**args))
+        if isinstance(c, LoopUnit):
+            # loop-body units: the named state is the PRE-iteration state (as on the symbolic side), result.<v> the post
+            vals = dict(args, result=res, old=NS(**args))
+        else:
+            vals = dict(call_args if isinstance(call_args, dict) else args, result=res, old=NS(**args))
         for en, efn in c.ensures.items():
             try:
                 ok = _native_spec(efn, vals)
